@@ -2,6 +2,7 @@ import LowModel.Driver.Bitmap
 import LowModel.Driver.Bmtree
 import LowModel.Driver.Strs
 import LowModel.Driver.Io
+import LowModel.Driver.Extras
 /- dispatch: one case line in, `model<TAB>verdict` out -/
 namespace Low.Driver
 
@@ -36,6 +37,7 @@ def dispatch (op : String) : Option (List String → String → Res) :=
   | "sw" => some hSw | "atw" => some hAtw | "swn" => some hSwn
   | "pbmk" => some hPbMarshal | "pbrt" => some hPbRt | "pbs" => some hPbStream | "pbraw" => some hPbRaw | "pbh" => some hPbHeader
   | "sizeofgen" => some hSizeOf | "sizeofnamed" => some hSizeOf
+  | "fmt" => some hFmt | "tree" => some hTree | "toslice" => some hToSlice | "statgen" => some hStat | "statnamed" => some hStat
   | _ => none
 
 def answer (line : String) : String :=
